@@ -14,4 +14,4 @@ if [ ! -x "$V/bin/python" ] || ! "$V/bin/python" -c "import crosshair, z3" 2>/de
   fi
   flock -u 9
 fi
-"$V/bin/python" -c "import crosshair, z3, clastic" 2>/dev/null
+"$V/bin/python" -c "import crosshair, z3" 2>/dev/null
